@@ -27,13 +27,13 @@ ImportsSecond ==
   { LetDiv0("zb"), LetTyErr("zb"), ParseErr, Use("ma"), Use("mz"), Use("md"), Expr("mc_x"), UnitDef("ma_x"), LetAns }
 SmallFirst ==
   { Let("za", 1), LetRef("zb", "za"), Fn("za", 2), FnCall("zb", "za"), Expr("za"), Call("zb"), AnsE,
-    UnitDef("zb"), PrintS("za"), LetDiv0("za"), LetTyErr("zb"), Use("mb"), Use("mf"), Use("mz") }
+    UnitDef("zb"), PrintS("za"), LetDiv0("za"), LetTyErr("zb"), Use("mb"), Use("mf"), Use("mz"), QExpr, AnsVal }
 SmallSecond == { LetDiv0("zb"), Expr("za"), ParseErr, Use("ma") }
 
 OkFirst ==
   { Let("za", 1), Let("za", 2), LetRef("za", "za"), LetRef("zc", "za"), Fn("zb", 1), Fn("zb", 2), FnRef("zb", "za"),
     FnCall("zc", "zb"), Expr("za"), Call("zb"), AnsE, PrintS("za"), UnitDef("zc"), Use("mb"), Use("mc"),
-    DimDef("za"), StructDef, AssertEq("za", 1) }
+    DimDef("za"), StructDef, AssertEq("za", 1), QExpr, AnsVal }
 
 Firsts  == CASE Alphabet = "okonly" -> OkFirst []  Alphabet = "names" -> NamesFirst [] Alphabet = "imports" -> ImportsFirst [] OTHER -> SmallFirst
 Seconds == CASE Alphabet = "okonly" -> {} []  Alphabet = "names" -> NamesSecond [] Alphabet = "imports" -> ImportsSecond [] OTHER -> SmallSecond
@@ -67,7 +67,7 @@ SimNext == /\ Len(hist) < Depth
 SimSpec == Init /\ [][SimNext]_vars
 
 \* values stay small (the harness and the spec use exact small integers)
-Bounded == \A i \in Ids : st.val[i] <= 20 /\ st.fnv[i] <= 20
+Bounded == \A i \in Ids : st.val[i] <= 2100 /\ st.fnv[i] <= 2100
 
 -----------------------------------------------------------------------------
 \* C06: a failing input leaves the observable session unchanged
